@@ -6,7 +6,8 @@ Record lp_obs := {
   ob_panic : bool; ob_err : bool;
   ob_labels : list (string * string * string);   (* rollout-id, batch-id, controller-revision-hash *)
   ob_n1 : Z;                                     (* Patch calls in pass 1 *)
-  ob_second : option Z                           (* Patch calls of a second pass; None: not run or it failed *)
+  ob_second : option Z;                          (* Patch calls of a second pass; None: not run or it failed *)
+  ob_perm : option (list (string * string * string))   (* ordered filter: labels after a pass that lists the same pods in reverse *)
 }.
 Definition case := (lp_input * lp_obs)%type.
 
@@ -38,10 +39,11 @@ Definition only_live_new (i : lp_input) (after : list pod) : bool :=
     (combine (i_pods i) after).
 
 (* clause 2: the number of live new-revision pods carrying (rollout-id, batch k) never exceeds
+   [a batch id is read as the number it spells, as in theorem C12_counted_pods_belong: "+1" and "01" are batch 1]
    max(number before, increment of batch k under the plan) *)
 Definition carries (i : lp_input) (k : Z) (p : pod) (crh_after : string) : bool :=
   negb (p_deleting p) && consistent (p_pth p) crh_after (i_rev i) &&
-  String.eqb (p_rid p) (i_rid i) && String.eqb (p_bid p) (itoa k).
+  String.eqb (p_rid p) (i_rid i) && (match atoi (p_bid p) with Some b => b =? k | None => false end).
 Definition never_over_budget (i : lp_input) (after : list pod) : bool :=
   let incs := planned_increments (i_batches i) (i_replicas i) (i_cur i) in
   forallb (fun ki => let '(k0, inc) := ki in let k := k0 + 1 in
@@ -60,15 +62,21 @@ Definition no_relabel (i : lp_input) (after : list pod) : bool :=
    without this release's label run out or every batch up to the current one has its planned number of carriers *)
 Definition budget_only_for_own (i : lp_input) (after : list pod) : bool :=
   match i_filter i with
-  | FUnordered => true
+  | FUnordered | FOrdered _ => true
   | FNone =>
     let incs := planned_increments (i_batches i) (i_replicas i) (i_cur i) in
     let unlabelled := count (fun a => live_new i a && negb (String.eqb (p_rid a) (i_rid i))) after in
+    sempty (i_rid i) ||   (* the property speaks of releases with a rollout-id; without one nothing is labelled *)
     (unlabelled =? 0) ||
     forallb (fun ki => let '(k0, inc) := ki in let k := k0 + 1 in
        inc <=? count (fun a => carries i k a (p_crh a)) after) (number_from 0 incs)
   end.
 
+Definition names_have_ordinal (i : lp_input) : bool :=
+  match i_filter i with
+  | FOrdered _ => forallb (fun p => match sort_key p with Some _ => true | None => false end) (i_pods i)
+  | _ => true
+  end.
 Definition in_domain (i : lp_input) : bool := (0 <=? i_cur i) && (i_cur i <? zlen (i_batches i)).
 
 Definition judge (c : case) : list verdict :=
@@ -76,16 +84,20 @@ Definition judge (c : case) : list verdict :=
   if negb (in_domain i) then [] else
   let after := after_pods i (ob_labels o) in
   [ (if corresponds i o then VOk else VMismatch);
-    clause "C12_tolerates_any_labels(no panic)" (negb (ob_panic o)) ] ++
+    clause "C12_tolerates_any_labels(no panic)" (negb (ob_panic o) || negb (names_have_ordinal i)) ] ++
   (if ob_panic o || ob_err o then [] else
   [ clause "C12_only_live_new_revision" (only_live_new i after);
     clause "C12_never_over_budget" (never_over_budget i after);
     clause "C12_no_relabel" (no_relabel i after);
     clause "C12_stale_pods_use_no_budget" (budget_only_for_own i after);
-    clause "C12_idempotent" (match ob_second o with Some n => n =? 0 | None => false end) ]).
+    clause "C12_idempotent" (match ob_second o with Some n => n =? 0 | None => false end);
+    (* StatefulSets: a pass that lists the same pods in another order hands out the same labels *)
+    clause "C12_same_labels_whatever_the_listing_order"
+      (match i_filter i, ob_perm o with FOrdered _, Some l => list_eqb lbl_eqb l (ob_labels o) | FOrdered _, None => false | _, _ => true end) ]).
 
 Definition tag (c : case) : string :=
   let '(i, o) := c in
+  match i_filter i with FOrdered _ => "ordered/" | _ => "" end ++
   match patch_pod_batch_label i with
   | Panic => "panic"
   | Err _ => "rs-get-error"
